@@ -9,6 +9,10 @@ use std::sync::atomic::{AtomicU64, Ordering};
 /// Deterministic payload of `len` bytes for (tid, seq); never contains '<', '>' or '\n'.
 pub fn payload(tid: u32, seq: u32, len: usize) -> Vec<u8> {
     const ALPHA: [&str; 12] = ["a", "b", "c", "d", "0", "1", "_", "é", "ß", "日", "𝄞", "-"];
+    if tid == LITERAL_TID {
+        // the frames of this writer are compile-time literals (see `LITERAL_FRAMES`)
+        return vec![b'L'; len];
+    }
     let mut out = Vec::with_capacity(len);
     let mut x = (tid as u64) << 32 | seq as u64;
     while out.len() < len {
@@ -22,6 +26,16 @@ pub fn payload(tid: u32, seq: u32, len: usize) -> Vec<u8> {
     }
     out
 }
+
+/// Writer whose records are passed to the appender as literal messages (`args().as_str()` is `Some`, what
+/// `info!("text")` produces): (seq, payload length, the message without the final newline).
+pub const LITERAL_TID: u32 = 7;
+pub const LITERAL_FRAMES: [(u32, usize, &str); 4] = [
+    (0, 0, "<t7:s0:l0:>"),
+    (1, 5, "<t7:s1:l5:LLLLL>"),
+    (2, 40, "<t7:s2:l40:LLLLLLLLLLLLLLLLLLLLLLLLLLLLLLLLLLLLLLLL>"),
+    (3, 100, "<t7:s3:l100:LLLLLLLLLLLLLLLLLLLLLLLLLLLLLLLLLLLLLLLLLLLLLLLLLLLLLLLLLLLLLLLLLLLLLLLLLLLLLLLLLLLLLLLLLLLLLLLLLLLL>"),
+];
 
 /// How a record ends, chosen by the writer id: most encoders end a record with a newline, but
 /// nothing obliges them to ("|{l}:{m}", "{m}{n}    at {t}").
